@@ -8,9 +8,10 @@ if sys.argv[1] == "--own":
     name = sys.argv[2]; prop = name[:3]; m = "0"
     dst = f"/verif/sensitivity/{name}"
 else:
-    prop, m = sys.argv[1], sys.argv[2]
-    src = f"/tmp/mut/{prop}/out/m{m}"
-    name = f"{prop}-m{m}"
+    wave, m = sys.argv[1], sys.argv[2]      # e.g. C03 or C03b (second wave)
+    prop = wave[:3]
+    src = f"/tmp/mut/{wave}/out/m{m}"
+    name = f"{wave}-m{m}"
     dst = f"/verif/seeded/{name}"
     os.makedirs(dst, exist_ok=True)
     for f in ["patch.diff", "demo.rs", "README.md"]:
@@ -18,7 +19,7 @@ else:
             shutil.copy(f"{src}/{f}", f"{dst}/{f}")
 has_demo = os.path.exists(f"{dst}/demo.rs")
 wt = f"/tmp/confirm_{name}"
-tgt = f"/tmp/confirm_target_{int(m)%2}_{prop}"
+tgt = f"/tmp/confirm_target_{name}"
 def sh(cmd, cwd=None, env=None):
     e = dict(os.environ); e.update(env or {})
     r = subprocess.run(cmd, shell=True, cwd=cwd, env=e, capture_output=True, text=True)
@@ -59,5 +60,11 @@ meta = {"id": name, "breaks_property": prop, "source": "independent sub-agent gi
         "quick_check_exit_codes": checks, "caught_by": sorted(k for k, v in checks.items() if v == 1),
         "failure_signatures": fails[:6],
         "what_ran": ["cargo test --offline --test demo_x (clean)", "git apply patch.diff", "cargo test --offline --lib / --doc", "cargo test --offline --test demo_x (patched)", "tools/mutant.sh scratch <name> patch.diff C01..C18 (quick tier, scratch copy of harness and worktree)"]}
+try:
+    old = json.load(open(f"{dst}/meta.json"))
+    if "needs_to_manifest" in old:
+        meta["needs_to_manifest"] = old["needs_to_manifest"]
+except Exception:
+    pass
 json.dump(meta, open(f"{dst}/meta.json", "w"), indent=1)
 print(name, confirm, "caught_by", meta["caught_by"])
